@@ -191,11 +191,15 @@ func LoadProg(dir string, overlay map[string][]byte) (*Prog, error) {
 					usedF[o] = true
 				}
 				removed := false
+				keptDecls := make([][]ast.Decl, len(view.Syntax))
+				for i, f := range view.Syntax {
+					keptDecls[i] = f.Decls
+				}
 				for _, f := range view.Syntax {
 					var keep []ast.Decl
 					for _, d := range f.Decls {
 						if fd, ok := d.(*ast.FuncDecl); ok {
-							if obj, _ := view.TypesInfo.Defs[fd.Name].(*types.Func); obj != nil && elig[obj] && !usedF[obj] {
+							if obj, _ := view.TypesInfo.Defs[fd.Name].(*types.Func); obj != nil && elig[obj] && !usedF[obj] && !obj.Exported() {
 								removed = true
 								continue
 							}
@@ -208,9 +212,17 @@ func LoadProg(dir string, overlay map[string][]byte) (*Prog, error) {
 					if tp2, info2, err := recheck(pk.PkgPath, pk.Fset, view.Syntax, imp, pk.TypesSizes); err == nil {
 						view.Types, view.TypesInfo = tp2, info2
 					} else {
-						// unused imports etc.: keep the helpers
+						// e.g. a helper method that also satisfies an interface, or an import only the
+						// helper used: put the helpers back
 						p.NormalizeLog = append(p.NormalizeLog, fmt.Sprintf("%s: helpers kept (%v)", rel(pk.PkgPath), err))
-						return nil, fmt.Errorf("load: removing inlined helpers of %s broke the package: %v", pk.PkgPath, err)
+						for i, f := range view.Syntax {
+							f.Decls = keptDecls[i]
+						}
+						if tp3, info3, err3 := recheck(pk.PkgPath, pk.Fset, view.Syntax, imp, pk.TypesSizes); err3 == nil {
+							view.Types, view.TypesInfo = tp3, info3
+						} else {
+							return nil, fmt.Errorf("load: re-check of %s failed: %v", pk.PkgPath, err3)
+						}
 					}
 				}
 			}
